@@ -198,7 +198,9 @@ def run_cases(ctx, world, cases, which):
             got = cc.nan_normalise(cc.canon(cc.to_tokens(world, c.t, v2)))
         except (Exception, core.ImplTimeout) as e:   # noqa
             sig = {"kind": "decode-raises", "exception": type(e).__name__}
-            if isinstance(e, TypeError) and "unhashable" in str(e):
+            if isinstance(e, TypeError) and hashed_unhashable(c.t):
+                # known finding K3 concerns exactly the types whose decoded
+                # Python value has an unhashable object in a hashed position
                 sig = {"kind": "unhashable-decode"}
             ctx.report(sig, replay, "decode(encode v) for %s raised %s: %s"
                        % (c.name, type(e).__name__, str(e)[:80]))
@@ -399,6 +401,24 @@ def run(ctx, which):
                                       % (b, pb, lb))
     ctx.extra["node_table"] = "%d attached, %d detached" % (
         len(world.attached), len(world.detached))
+
+
+def unhashable_type(t):
+    """is the Python value of this type unhashable (list, set, dict, Variant,
+    or a tuple with such a field)?"""
+    name, kids = t
+    if name in ("sequence", "set", "mapping", "variant"):
+        return True
+    return name == "tuple" and any(unhashable_type(k) for k in kids)
+
+
+def hashed_unhashable(t):
+    """does the type put an unhashable value into a hashed position (a set
+    element, a mapping key) somewhere?"""
+    name, kids = t
+    if name in ("set", "mapping") and kids and unhashable_type(kids[0]):
+        return True
+    return any(hashed_unhashable(k) for k in kids)
 
 
 def resolution_across_edits(ctx, world):
